@@ -54,6 +54,7 @@ func main() {
 		}
 		h.concurrent(lib.NewRNG(f.Seed).Fork(9_999_999), rounds)
 		h.pollerStage(lib.NewRNG(f.Seed).Fork(8_888_888), f.Scale(3, 12))
+		h.syncStage(lib.NewRNG(f.Seed).Fork(7_777_777), f.Scale(2, 10))
 		lib.Finish(f, res)
 	}
 	if f.Replay != "" {
@@ -68,6 +69,8 @@ func main() {
 	}
 	h.fixed()
 	lap("fixed")
+	h.exhaustive(f.Scale(3, 4))
+	lap("exhaustive")
 	nSeq := f.Scale(260, 6000)
 	h.parallel(nSeq, func(w *harness, i int) { w.seqCase(root.Fork(uint64(i)), i) })
 	lap("seq")
@@ -140,6 +143,9 @@ func (h *harness) compare(r *runner, scn *Scenario) {
 	for i, a := range r.asks {
 		model, impl := outs[i], a.impl
 		ok := model == impl
+		if a.cmp == "apply" && strings.HasPrefix(model, "err:") {
+			h.res.Hit("apply-rejected:" + strings.TrimPrefix(model, "err:"))
+		}
 		switch a.cmp {
 		case "apply":
 			// errors are compared as a class: "err" on both sides; the two exported sentinel
@@ -152,6 +158,26 @@ func (h *harness) compare(r *runner, scn *Scenario) {
 		case "err-generic":
 			if (model == "nobase" || model == "broken") && impl == "err" {
 				ok = true
+			}
+		case "state":
+			if (model == "nobase" || model == "broken") && impl == "err" {
+				ok = true
+			} else if mi := strings.Index(model, " lu["); mi >= 0 && !ok {
+				// ContractStorageLastUpdatedBlock: the model answers "as implemented / as specified"
+				// per slot; the code must be one of the two throughout (it is the first on the
+				// unchanged tree; the second once the known finding is repaired)
+				ii := strings.Index(impl, " lu[")
+				if ii >= 0 && model[:mi] == impl[:ii] {
+					asis, spec := splitLU(model[mi+1:])
+					switch impl[ii+1:] {
+					case asis:
+						ok = true
+						h.res.Hit("last-updated-as-implemented")
+					case spec:
+						ok = true
+						h.res.Hit("last-updated-as-specified")
+					}
+				}
 			}
 		}
 		if !ok {
@@ -296,3 +322,22 @@ func (h *harness) replay(path string) {
 }
 
 var _ = preconfirmed.NewChainStorage
+
+// splitLU turns the driver's `lu[a:k=x/y,...]` into the two candidate answers.
+func splitLU(m string) (string, string) {
+	body := strings.TrimSuffix(strings.TrimPrefix(m, "lu["), "]")
+	var as, sp []string
+	for _, e := range strings.Split(body, ",") {
+		kv := strings.SplitN(e, "=", 2)
+		if len(kv) != 2 {
+			return "?", "?"
+		}
+		xy := strings.SplitN(kv[1], "/", 2)
+		if len(xy) != 2 {
+			return "?", "?"
+		}
+		as = append(as, kv[0]+"="+xy[0])
+		sp = append(sp, kv[0]+"="+xy[1])
+	}
+	return "lu[" + strings.Join(as, ",") + "]", "lu[" + strings.Join(sp, ",") + "]"
+}
